@@ -246,6 +246,15 @@ func runC06(e *core.Env) {
 			err = rc.ManifestPut(ctx, mustRef(ep.refStr(t)), m)
 		case "push-digest":
 			m, _ := nodeManifest(n)
+			if op.Flag {
+				// the manifest object pushed by digest may be one that was fetched through a tag before (as a
+				// program that reads :tag and pushes the result @digest does); what it carries from the fetch
+				// must not turn the push by digest into a push by tag
+				if fm, gerr := rc.ManifestGet(ctx, mustRef(ep.refStr(t))); gerr == nil && fm.GetDescriptor().Digest.String() == n.Digest {
+					m = fm
+					e.Probe("pushed-by-digest-a-manifest-fetched-by-tag")
+				}
+			}
 			err = rc.ManifestPut(ctx, mustRef(strings.TrimSuffix(ep.refStr("x"), ":x")+"@"+n.Digest), m)
 		case "tag-delete":
 			err = rc.TagDelete(ctx, mustRef(ep.refStr(t)))
